@@ -1,7 +1,9 @@
 """C04 — Numbers parse to the exact integer or correctly rounded double: clauses
 (a) every row of every power-of-ten table, (b) every subscript into those tables
 in range on all paths, (c) fast-path guard constants inside their proven-safe
-region (DESIGN.md section 5/C04)."""
+region, (d) the truncation flag is monotone, (e) the Eisel-Lemire path cannot
+store an Inf/NaN exponent and the fallback result is screened for infinity
+(DESIGN.md section 5/C04)."""
 from ..core import get_facts, strip, strip_expect, cval, show, walk, locline, is_this_member
 from ..e5_tables import (arr, find_static, check_rows, pow10_m128_floor, double_bits)
 from ..e3_interval import check_table_subscripts, intervals_for, table_value_ranges, INF
@@ -245,6 +247,7 @@ def run(rep, tier):
         clause_b(facts, rep)
         clause_c(facts, rep)
         clause_d(facts, rep)
+        clause_e(facts, rep)
     rep.trust('clang 14 front end and constant evaluator', 'Python big integers / fractions', 'Clinger exact fast-path conditions',
               'simd_str2int contract: the digit count it stores never exceeds the requested count')
     rep.assumptions += [
@@ -281,3 +284,127 @@ def clause_d(facts, rep):
                 rep.check(ok, 'E2.trunc-monotone', f.qn, show(e), locline(e['loc']),
                           'the truncation flag may only be set to 1 or OR-ed: a computed store can clear a flag set by an earlier dropped digit', facts.config)
     rep.require(n >= 3, 'C04.d: stores to the truncation flag found: %d' % n)
+
+
+def clause_e(facts, rep):
+    """A value that rounds to infinity is rejected, not stored.
+    (1) AtofEiselLemire64 assembles the result as (X << 52) | mantissa: on every path to that store the biased
+        exponent X must have been confined to [1, 0x7FE] (0 = subnormal and 0x7FF = Inf/NaN are not representable
+        by this path and must be refused to the caller).  The guards are evaluated exactly over the wrap-around
+        candidates of X, so the `(X - 1) >= 0x7FE` idiom and any equivalent spelling are accepted.
+    (2) in parseFloatEiselLemire64 a success return that follows the AtofNative fallback sits on the "not
+        infinity" edge of a test of the produced bits."""
+    from ..e2_dom import Must
+    from .c09 import eval_guard
+    from ..core import AnalysisBroken
+    M64 = 2 ** 64 - 1
+    n1 = n2 = 0
+    for f in facts.functions:
+        if f.short != 'AtofEiselLemire64':
+            continue
+        rep.fn(f)
+        sites = []
+        for bid, i, s, e in f.walk():
+            if e.get('k') == 'bin' and e['op'] == '<<' and cval(e['r']) == 52:
+                x = strip(e['l'])
+                if x is not None and x.get('k') == 'ref' and x.get('dk') == 'local':
+                    sites.append((bid, i, e, x))
+        rep.require(len(sites) >= 1, 'C04.e: exponent-field assembly (X << 52) not found in %s' % f.qn)
+        for bid, i, e, x in sites:
+            if x.get('t') not in ('uint64_t', 'unsigned long', 'unsigned long long'):
+                raise AnalysisBroken('C04.e: exponent variable %s has type %s; the guard evaluator assumes an unsigned 64-bit value' % (x.get('name'), x.get('t')))
+            xid = x['id']
+
+            def cands(cond):
+                cs = set()
+                for y in walk(cond):
+                    if y.get('cv') is not None:
+                        try:
+                            cs.add(int(y['cv']) & M64)
+                        except ValueError:
+                            pass
+                vs = set(range(0, 0x1001)) | set(range(M64 - 0x1000, M64 + 1))
+                for c in list(cs) + [2 ** 63, 2 ** 32, 2 ** 31, 2 ** 52, 2 ** 53, 0x7FF << 52]:
+                    for d in range(-3, 4):
+                        vs.add((c + d) & M64)
+                        vs.add((-c + d) & M64)
+                        for c2 in cs:
+                            vs.add((c + c2 + d) & M64)
+                            vs.add((c - c2 + d) & M64)
+                return sorted(vs)
+
+            def gen_edge(b, cond, sense):
+                c = strip_expect(cond)
+                if c is None:
+                    return []
+                ids = set(y.get('id') for y in walk(c) if y.get('k') == 'ref' and y.get('dk') in ('local', 'param'))
+                if ids != {xid}:
+                    return []
+                try:
+                    sat = [v for v in cands(c) if bool(eval_guard(c, {xid: v})) == sense]
+                except KeyError:
+                    return []
+                out = []
+                if all(v >= 1 for v in sat):
+                    out.append('lo')
+                if all(v <= 0x7FE for v in sat):
+                    out.append('hi')
+                return out
+
+            def kill_stmt(st):
+                for y in walk(st):
+                    if y.get('k') == 'bin' and y['op'] in ('=', '+=', '-=', '|=', '&=', '<<=', '>>=', '*=', '^=') and strip(y['l']) is not None and strip(y['l']).get('id') == xid:
+                        return ['lo', 'hi']
+                    if y.get('k') == 'un' and y['op'] in ('++', '--') and strip(y['e']) is not None and strip(y['e']).get('id') == xid:
+                        return ['lo', 'hi']
+                return []
+            Mst = Must(f, gen_edge=gen_edge, kill_stmt=kill_stmt)
+            st = Mst.at(bid, i)
+            if st is None:
+                continue
+            n1 += 1
+            rep.check('lo' in st and 'hi' in st, 'E3.exponent-field', f.qn, show(e), locline(e['loc']),
+                      'the biased exponent stored into the double must be confined to [1, 0x7FE] by the guards on every path '
+                      '(0x7FF would store Inf/NaN as a successful parse); established: %s' % sorted(st), facts.config)
+    for f in facts.functions:
+        if f.cls_qn != PARSER or f.short != 'parseFloatEiselLemire64':
+            continue
+        rep.fn(f)
+        errs = facts.enum_values()
+
+        def gen_stmt(st):
+            return ['native'] if any(y.get('k') == 'call' and y.get('cname') == 'AtofNative' for y in walk(st)) else []
+
+        def gen_edge(b, cond, sense):
+            c = strip_expect(cond)
+            neg = False
+            while c is not None and c.get('k') == 'un' and c['op'] == '!':
+                neg = not neg
+                c = strip_expect(c['e'])
+            if c is None:
+                return []
+            if c.get('k') == 'bin' and c['op'] in ('==', '!='):
+                for a, b_ in ((c['l'], c['r']), (c['r'], c['l'])):
+                    a_ = strip(a)
+                    if cval(b_) == 0xFFE0000000000000 and a_ is not None and a_.get('k') == 'bin' and a_['op'] == '<<' and cval(a_['r']) == 1:
+                        is_inf_edge = (sense != neg) if c['op'] == '==' else (sense == neg)
+                        return [] if is_inf_edge else ['finite']
+            if c.get('k') == 'call' and c.get('cname') in ('isinf', '__builtin_isinf', 'isfinite', '__builtin_isfinite'):
+                inf_when_true = 'isinf' in c['cname']
+                is_inf_edge = (sense != neg) == inf_when_true
+                return [] if is_inf_edge else ['finite']
+            return []
+        Mst = Must(f, gen_stmt=gen_stmt, gen_edge=gen_edge)
+        for bid, i, st_ in f.stmts():
+            s_ = strip(st_)
+            if s_ is None or s_.get('k') != 'ret':
+                continue
+            stt = Mst.at(bid, i)
+            if stt is None or 'native' not in stt:
+                continue
+            if cval(s_.get('e')) == errs.get('kErrorNone', 0):
+                n2 += 1
+                rep.check('finite' in stt, 'E2.infinity-screen', f.qn, show(s_), locline(s_['loc']),
+                          'a success return after the AtofNative fallback must sit on the not-infinity edge of a test of the produced bits', facts.config)
+    rep.require(n1 >= 1, 'C04.e: no exponent-field site analysed')
+    rep.require(n2 >= 1, 'C04.e: no success return after AtofNative found')
